@@ -46,17 +46,18 @@ Theorem C02_ghost_weight_2d (p q : nat) (g a : nat -> R) :
 Proof. exact (ghost_weight_2d p q g a). Qed.
 
 (* nn.Embedding: the ghost norm (positions grouped by id, padding positions masked) is the norm of the scatter-add per-sample gradient
-   with the padding row zero, for every vocabulary size V, row length L, embedding dimension D, ids below V, optional padding index;
+   with the padding row zero, for every vocabulary size V, row length L, embedding dimension D, ids below V, optional padding index and
+   per-row factor sc (1, or 1 / frequency of the id in the sample under scale_grad_by_freq: both samplers divide by the same counts);
    that per-sample gradient is the formula of Model/Layers shown in C01 to be the sample's own gradient *)
-Theorem C02_ghost_embedding (pad : option nat) (V L D : nat) (idx : nat -> nat) (g : nat -> nat -> R) :
+Theorem C02_ghost_embedding (sc : nat -> R) (pad : option nat) (V L D : nat) (idx : nat -> nat) (g : nat -> nat -> R) :
   (forall t, (t < L)%nat -> (idx t < V)%nat) ->
-  true_norm_sq_embedding pad V L D idx g = ghost_sq_embedding pad L D idx g /\
+  true_norm_sq_embedding sc pad V L D idx g = ghost_sq_embedding sc pad L D idx g /\
   (forall v d, emb_gs_row pad L idx g v d = Layers.emb_gs R 0 Rplus pad L g idx v d).
-Proof. intros B. split; [exact (ghost_embedding pad V L D idx g B) | intros v d; exact (emb_gs_row_is_layers pad L idx g v d)]. Qed.
+Proof. intros B. split; [exact (ghost_embedding sc pad V L D idx g B) | intros v d; exact (emb_gs_row_is_layers pad L idx g v d)]. Qed.
 (* and the masking is needed: the unmasked formula (the sampler before the repair) differs when a position holds the padding index *)
 Theorem C02_ghost_embedding_needs_mask :
   exists (V L D : nat) (idx : nat -> nat) (g : nat -> nat -> R),
-    (forall t, (t < L)%nat -> (idx t < V)%nat) /\ true_norm_sq_embedding (Some 0%nat) V L D idx g <> ghost_sq_embedding_old L D idx g.
+    (forall t, (t < L)%nat -> (idx t < V)%nat) /\ true_norm_sq_embedding (fun _ => 1) (Some 0%nat) V L D idx g <> ghost_sq_embedding_old (fun _ => 1) L D idx g.
 Proof. exact ghost_embedding_old_refuted. Qed.
 
 Example C02_nonvacuous : joint_norm (flat_clipped 1 [[3; 0]; [4]]) <= 1.
